@@ -24,6 +24,9 @@ pub fn family(name: &str) -> Vec<Scenario> {
         "PX" => scen::family_px(),
         "PXd" => scen::family_pxd(),
         "PV" => scen::family_pv(),
+        "RF" => scen::family_rf(),
+        "RD" => scen::family_rd(),
+        "W" => scen::family_w(),
         "G4" => scen::family_g(4, &E3),
         "D3" => scen::family_d(3, &E4, false),
         "D3p" => scen::family_d(3, &E3, true),
@@ -50,15 +53,16 @@ pub fn jobs(prop: &str, tier: Tier) -> Vec<(String, u64)> {
         ("C01", Tier::Thorough) => q(&["G3", "G3n", "PX", "G4", "D3", "D3p", "D4", "F3", "F4", "P3", "S", "R"]),
         ("C04", Tier::Quick) => q(&["P3", "PX", "PXd", "PV", "D3p", "S", "R"]),
         ("C04", Tier::Thorough) => q(&["P3", "PX", "PXd", "PV", "P4", "D3p", "D4", "F4", "S", "R"]),
-        ("C05", Tier::Quick) => q(&["F3q", "S", "P3", "PV"]),
-        ("C05", Tier::Thorough) => q(&["F3", "F4", "S", "P3", "PX", "PV", "P4", "R"]),
+        ("C05", Tier::Quick) => q(&["F3q", "S", "P3", "PV", "RF"]),
+        ("C05", Tier::Thorough) => q(&["F3", "F4", "S", "P3", "PX", "PV", "P4", "R", "RF"]),
         ("C06", Tier::Quick) => q(&["V2", "V3", "G3", "G3n", "PX", "PV", "S", "R", "P3", "F3q"]),
         ("C06", Tier::Thorough) => q(&["V2", "V3", "G3", "G3n", "PX", "G4", "D3", "D4", "F3", "S", "R", "P3", "P4", "T3"]),
-        ("C17", _) => q(&["R"]),
+        ("C17", _) => q(&["R", "RD"]),
+        ("C14", _) => q(&["RD"]),
         ("C18", Tier::Quick) => q(&["T3", "R", "S", "V2"]),
         ("C18", Tier::Thorough) => q(&["T3", "R", "D3", "S", "V2", "V3"]),
-        ("C19", Tier::Quick) => q(&["G3", "D3", "F3q", "P3", "PX", "S", "R"]),
-        ("C19", Tier::Thorough) => q(&["G3", "G3n", "PX", "G4", "D3", "D3p", "F3", "P3", "P4", "S", "R", "T3"]),
+        ("C19", Tier::Quick) => q(&["G3", "D3", "F3q", "P3", "PX", "S", "R", "W"]),
+        ("C19", Tier::Thorough) => q(&["G3", "G3n", "PX", "W", "G4", "D3", "D3p", "F3", "P3", "P4", "S", "R", "T3"]),
         _ => vec![],
     }
 }
@@ -939,6 +943,30 @@ pub fn monitor_c17(s: &Scenario, ex: &Execution) -> Findings {
     f
 }
 
+/// C14 (scheduler half): a regenerated manifest (or included fragment) in
+/// which a second statement produces an existing output is rejected on reload,
+/// naming the output, and nothing of it runs.
+pub fn monitor_c14(s: &Scenario, ex: &Execution) -> Findings {
+    let mut f = Findings::new();
+    if !s.note.starts_with("RD ") {
+        return f;
+    }
+    let phs = phases(s, ex);
+    match &ex.result {
+        BuildResult::Error(msg) if msg.contains("is already an output") => {
+            let later = phs.iter().skip(1).any(|ph| !ph.runs.is_empty());
+            if later {
+                f.push(("ran-steps-of-a-rejected-manifest".into(), format!("the regenerated manifest was rejected ({}) but commands were started after the regeneration phase", msg)));
+            }
+        }
+        other => f.push((
+            "duplicate-producer-after-regeneration-accepted".into(),
+            format!("the generator wrote a text in which two statements produce one file, but the invocation ended with {:?} and started {:?} after the regeneration phase", other, phs.iter().skip(1).flat_map(|ph| ph.runs.iter().map(|r| name(ph.project, r.step))).collect::<Vec<_>>()),
+        )),
+    }
+    f
+}
+
 pub fn monitors(prop: &str, s: &Scenario, ex: &Execution) -> Findings {
     // An invocation that panics establishes nothing; whatever the property,
     // the panic itself is reported (C06 reports it through its own monitor).
@@ -953,6 +981,7 @@ pub fn monitors(prop: &str, s: &Scenario, ex: &Execution) -> Findings {
         "C05" => monitor_c05(s, ex),
         "C06" => monitor_c06(s, ex),
         "C17" => monitor_c17(s, ex),
+        "C14" => monitor_c14(s, ex),
         "C18" => monitor_c18(s, ex),
         "C19" => monitor_c19(s, ex),
         _ => Vec::new(),
@@ -1066,7 +1095,7 @@ pub fn explore(ctx: &Ctx, fam: &str, idx: usize, s: &Scenario, res: &mut ShardRe
         if (res.samples.is_empty() || idx % 997 == 0) && executions == 1 {
             res.sample(|| json!({"family": fam, "index": idx, "scenario": s.describe(), "choices": chosen, "trace": short_trace(&ex)}));
         }
-        if only_prefix.is_some() {
+        if only_prefix.is_some() || s.single_order {
             break;
         }
         // Branch on every later choice point.
